@@ -389,6 +389,10 @@ func verifRun(c *mon.Case) *mon.Result {
 	if c.Reader && res.Panic == "" {
 		// a result must stay what it is when the entry point is used again
 		v1 := mon.Canon(val)
+		e1 := ""
+		if err != nil {
+			e1 = err.Error()
+		}
 		other := bytes.Repeat([]byte{'Z'}, len(in)+1)
 		func() {
 			defer func() { recover() }()
@@ -397,9 +401,18 @@ func verifRun(c *mon.Case) *mon.Result {
 				o2 = append(o2, Entrypoint(c.Entry))
 			}
 			ParseReader("", bytes.NewReader(other), o2...)
+			// and the same input once more under another file name: as many errors as before are
+			// recorded again, with a different prefix
+			ParseReader("other.file", bytes.NewReader(append([]byte{}, c.Input...)), o2...)
 		}()
 		if v2 := mon.Canon(val); v2 != v1 {
 			res.Unstable = fmt.Sprintf("%.200s -> %.200s", v1, v2)
+		}
+		if err != nil {
+			// the error list the caller holds is the caller's: later calls must not rewrite it
+			if e2 := err.Error(); e2 != e1 {
+				res.Unstable += fmt.Sprintf(" error list: %.200q -> %.200q", e1, e2)
+			}
 		}
 	}
 {{if not .Optimized}}
